@@ -118,7 +118,7 @@ def run(tier, seed, which="C11"):
                 for t, p in chunks[ci]:
                     fh.write(",".join(map(str, t)) + "\n" + ",".join(map(str, p)) + "\n")
         tp, rc, err = kv.run_kvdrive("bpm %s 3\n" % f, wd, "bpm_%s_%d" % (b, ci), variant=b, timeout=300)
-        res = kv.run_tlc("MyersTrace", "MyersTrace.cfg", wd, trace=tp, cont=True, timeout=3000, heap="3g", name="mt_%s_%d" % (b, ci))
+        res = kv.run_tlc("MyersTrace", "MyersTrace.cfg", wd, trace=tp, timeout=3000, heap="3g", name="mt_%s_%d" % (b, ci))
         return ci, b, tp, rc, err, res
 
     # write files first (rel), then both builds
